@@ -1,7 +1,8 @@
 ------------------------------- MODULE MC_Eval -------------------------------
 (***************************************************************************)
 (* C05: laziness, order, exactly-once, first-error-wins.                   *)
-(* Universe: all trees with at most L probe leaves over the lazy kinds     *)
+(* Universe: all trees with at most L probe leaves (at most three; the    *)
+(* four-leaf trees only over and, or, eq, neq, add, if) over the lazy kinds *)
 (* {if, and, or, eq, neq} and one representative of each strict shape      *)
 (* {binary operator, comparison, membership, list, map, call argument,     *)
 (* unary operator, index}.  A probe is a call p_i(i_i) of a non-cacheable, *)
@@ -37,6 +38,16 @@ T(n) ==
        \cup (IF n >= 3 THEN UNION { {If(c, t, f) : c \in T(i), t \in T(j), f \in T(n - i - j)}
                                      : <<i, j>> \in {p \in (1..(n-2)) \X (1..(n-2)) : p[1] + p[2] <= n - 1} }
              ELSE {})
+\* trees with exactly n holes over the lazy kinds, `add` and `if` only (used for n = 4: the full T(4) has 17 000 shapes x 625
+\* assignments)
+LazyPlus == {"and", "or", "eq", "neq", "add"}
+RECURSIVE TR(_)
+TR(n) ==
+  IF n = 1 THEN {Hole}
+  ELSE UNION { {Bin(k, l, r) : k \in LazyPlus, l \in TR(i), r \in TR(n - i)} : i \in 1..(n - 1) }
+       \cup (IF n >= 3 THEN UNION { {If(c, t, f) : c \in TR(i), t \in TR(j), f \in TR(n - i - j)}
+                                     : <<i, j>> \in {p \in (1..(n-2)) \X (1..(n-2)) : p[1] + p[2] <= n - 1} }
+             ELSE {})
 Wrapped(t) == {Un("not", t), Un("some", t), Call(S("q"), t), Call(S("nofn"), t), Idx(VecE(<<t>>), PosI(0)), Idx(t, FieldI(S("a")))}
 \* chains longer than L: same-operator and alternating runs of four lazy operators, nested on the left spine (what the
 \* parser builds for `a and b and c and d`) and on the right; an else-if ladder with three conditions
@@ -52,7 +63,7 @@ Chains == {Bin(k1, Bin(k2, Bin(k1, Hole, Hole), Hole), Hole) : k1 \in LazyK, k2 
                 If(Hole, Val(VBool(FALSE)), Val(VBool(TRUE)))}
           \cup {Bin(k, Call(S("q"), Val(I(1))), Call(S("q"), Val(I(1)))) : k \in {"eq", "neq", "add", "sub", "contains", "gt"}}
           \cup {Bin(k, Call(S("q"), Val(VBool(TRUE))), Call(S("q"), Val(VBool(TRUE)))) : k \in {"and", "or"}}
-Shapes == LET base == UNION {T(n) : n \in 1..L} IN
+Shapes == LET base == UNION {T(n) : n \in 1..(IF L > 3 THEN 3 ELSE L)} \cup (IF L > 3 THEN UNION {TR(n) : n \in 4..L} ELSE {}) IN
           IF Wrap THEN base \cup Chains \cup UNION {Wrapped(t) : t \in UNION {T(n) : n \in 1..(IF L > 2 THEN 2 ELSE L)}}
                        \cup {Bin("and", w, Hole) : w \in Wrapped(Hole)} \cup {Bin("eq", Hole, w) : w \in Wrapped(Hole)}
           ELSE base
